@@ -10,6 +10,7 @@ import (
 
 	"github.com/privacybydesign/gabi/big"
 	"github.com/privacybydesign/gabi/internal/common"
+	"github.com/privacybydesign/gabi/rangeproof"
 	"github.com/privacybydesign/gabi/revocation"
 )
 
@@ -113,4 +114,9 @@ func VerifFastMod(p, x *big.Int, alias bool) *big.Int {
 
 func VerifRandomPrimeInRange(rand io.Reader, start, length uint) (*big.Int, error) {
 	return common.RandomPrimeInRange(rand, start, length)
+}
+
+// VerifRangeCommits exposes the range proof commitments of a disclosure proof builder (set by Commit).
+func (d *DisclosureProofBuilder) VerifRangeCommits() map[int][]*rangeproof.ProofCommit {
+	return d.rpCommits
 }
